@@ -1030,11 +1030,16 @@ class _Generator(Generator):
 
         with self.c_members_backtrace_push(type_.name):
 
+            if checker.minimum == checker.maximum:
+                # Fixed size: the struct has no length member.
+                length = '{}u'.format(checker.maximum)
+            else:
+                length = 'src_p->{}length'.format(
+                    self.location_inner('', '.'))
+
             return [1,
-                    '(uint32_t)minimum_uint_length(src_p->{loc}length)'.format(
-                        loc=self.location_inner('', '.')),
-                    '(uint32_t)(src_p->{loc}length * ({inner_length}))'.format(
-                        loc=self.location_inner('', '.'), inner_length=inner_length)]
+                    '(uint32_t)minimum_uint_length({})'.format(length),
+                    '(uint32_t)({} * ({}))'.format(length, inner_length)]
 
     def format_type_inner(self, type_, checker):
         if isinstance(type_, oer.Integer):
